@@ -498,7 +498,7 @@ Error RACFGBuilder::on_instruction(InstNode* inst, InstControlFlow& cf, RAInstBu
           }
         }
       }
-      else if (operands.size() == 2 && operands[1].is_imm()) {
+      else if (operands.size() == 2 && operands[0].is_reg() && operands[1].is_imm()) {
         // Handle some tricks used by X86 asm.
         const Reg& reg = operands[0].as<Reg>();
         const Imm& imm = operands[1].as<Imm>();
